@@ -25,7 +25,7 @@ threads, any schedule (`List Act`).  Every action emits the operations of the at
 * `unlock_exactly_once` — sequential server model M2, every reachable state and EVERY continuation of
   the history (requests, expiries, session ends, collections, restarts): after a successful Unlock of
   (name, key) the pair is never held again and every further Unlock with it fails.
-* `linearizable_real_time` — model M1t (`Ldlm.Threads`): the same critical sections run by THREADS with a
+* `linearizable_real_time_partial` — model M1t (`Ldlm.Threads`): the same critical sections run by THREADS with a
   program counter, each call with an invocation and a return event.  For EVERY schedule of any number
   of TryLock / Lock / Unlock calls (cancelled and refused ones included) on a lock object nobody is
   using: (1) every specification operation is attributed to a call that has been invoked and has not
@@ -34,6 +34,15 @@ threads, any schedule (`List Act`).  Every action emits the operations of the at
   result its operation has in the specification (a call without operation reports failure, a Lock that
   was handed the unit after giving up hands it back inside the call); (3) the operations in that order
   are a run of the atomic counting lock.  (1)–(3) is linearizability with explicit linearization points.
+  PARTIAL in one respect (recorded as K21): a blocking Lock that gives up (context cancelled, wait
+  time-out) AFTER `Release` has already handed it the unit is linearized as TWO operations inside its
+  interval — the grant, and the release it performs itself (`x/sync/semaphore`: "Acquired the semaphore
+  after we were canceled … put the tokens back").  Between the two the lock is full although no hold
+  is live and none will be: a TryLock in that window is refused.  Against the strict specification (a
+  failed acquisition has no effect at all) that history is NOT linearizable:
+  `handback_window_refutes_strict` is a kernel-checked schedule of M1t that the checker accepts and
+  whose client-visible operations are not a run of the atomic lock; the conc stream replays it on the
+  real code (template `lock(request-cancelled)‖unlock;trylock`).
 After the repair of D14/W1 (`fix:` 066861c) `Lock.Unlock` is one critical section and the model has
 no "key removed, unit not yet released" state: the W1 history is not a run of the model any more.
 -/
@@ -104,7 +113,7 @@ open Ldlm.Threads
 /-- **C02, real-time order**: every schedule of threaded calls yields a well-formed trace (`wf`:
 linearization points inside the calls' intervals, results as in the specification) whose operations,
 in trace order, are a run of the atomic counting lock ending in the abstraction of the final state -/
-theorem linearizable_real_time (n : Str) (o : Obj) (as : List TAct) (s' : TSt) (tr : List Ev)
+theorem linearizable_real_time_partial (n : Str) (o : Obj) (as : List TAct) (s' : TSt) (tr : List Ev)
     (hi : ObjInv o) (hq : o.q = []) (ha : o.acq = []) (hside : AllSideT n ⟨o, []⟩ as)
     (hr : trun n ⟨o, []⟩ as = some (s', tr)) :
     wf n [] tr = true ∧ ∃ h', arun o.size o.abs (lins tr) = some h' ∧ h'.Perm s'.o.abs := by
@@ -138,6 +147,36 @@ example : (trun [120] ⟨oT, []⟩ schedT).map (·.2) = some
      .ret 2 true] := by decide
 example : AllSideT [120] ⟨oT, []⟩ schedT := by
   simp [AllSideT, schedT, oT, tstep, project, stepObj, sideOk, Obj.freeUnit, AMap.get, AMap.set, AMap.del, handOver, credit]
+end
+
+/-! ### the strict reading fails: the hand-back window (K21) -/
+section
+open Ldlm.Threads
+
+/-- size-1 lock held with key `h`; T2's Lock queues; T1 unlocks (the unit is handed to T2, whose call is
+still pending) and returns; T3's TryLock, invoked after T1 returned, is refused; T2 gives up and hands
+the unit back; everybody returns -/
+def oH : Obj := { size := 1, cur := 1, q := [], keys := [[104]], acq := [], plain := 0 }
+def schedH : List TAct :=
+  [.invoke 2 (.lock [50]), .next 2, .next 2,                     -- T2 queued
+   .invoke 1 (.unlock [104]), .next 1, .next 1, .next 1,         -- T1: Unlock(h) = true, returned
+   .invoke 3 (.tryLock [51]), .next 3, .next 3, .next 3,         -- T3: TryLock = false, returned
+   .giveUp 2, .next 2]                                           -- T2: cancelled after the hand-over: gives the unit back, returns false
+
+/-- the model runs the schedule, the checker accepts the trace (T2's grant and release lie inside T2's call) … -/
+theorem handback_window_runs :
+    (trun [120] ⟨oH, []⟩ schedH).map (·.2) = some
+      [.inv 2 (.lock [50]),
+       .inv 1 (.unlock [104]), .lin 1 (.unlock [120] [104] true), .lin 2 (.grant [120] [50]), .ret 1 true,
+       .inv 3 (.tryLock [51]), .lin 3 (.try [120] [51] false), .ret 3 false,
+       .lin 2 (.unlock [120] [50] true), .ret 2 false] ∧
+    ((trun [120] ⟨oH, []⟩ schedH).map (fun r => wf [120] [] r.2)) = some true := by decide
+
+/-- … but what the CLIENTS saw — Unlock(h) = true, then TryLock = false, and a Lock that failed — is not a
+run of the atomic counting lock when the failed Lock is given no effect: after the Unlock nothing is
+live, so the TryLock had to succeed.  The strict reading of C02 is false of the model, and (K21) of the code. -/
+theorem handback_window_refutes_strict :
+    arun 1 [[104]] [.unlock [120] [104] true, .try [120] [51] false] = none := by decide
 end
 
 /-! ### each granted key unlocks successfully exactly once (M2, for every continuation) -/
